@@ -388,6 +388,22 @@ func C05(c *core.Ctx) {
 		if _, err := protocol.NewPong(true, "", "h", hc.key, &protocol.Helo{MessageType: "HELO"}, ping); err == nil {
 			c.Violation("judge-go", "c05-newpong-nil", "NewPong accepted a HELO without options", nil)
 		}
+		if pg, err := protocol.NewPong(true, "", "h", hc.key, nil, ping); err == nil || pg != nil {
+			c.Violation("judge-go", "c05-newpong-nil", "NewPong accepted a nil HELO", nil)
+		}
+		if pg, err := protocol.NewPong(true, "", "h", hc.key, protocol.NewHelo(&protocol.HeloOpts{Nonce: hc.nonce}), nil); err == nil || pg != nil {
+			c.Violation("judge-go", "c05-newpong-nil", "NewPong accepted a nil PING", nil)
+		}
+		// the HELO a server builds with the helper (default options when none are given) is what the client decodes
+		for _, ho := range []*protocol.HeloOpts{nil, {Nonce: hc.nonce, Auth: []byte{}, Keepalive: false}} {
+			h := protocol.NewHelo(ho)
+			hb, herr := h.MarshalMsg(nil)
+			var back protocol.Helo
+			_, uerr := back.UnmarshalMsg(hb)
+			if h.MessageType != "HELO" || h.Options == nil || (ho == nil && !h.Options.Keepalive) || herr != nil || uerr != nil || back.Options == nil || !bytes.Equal(back.Options.Nonce, h.Options.Nonce) || back.Options.Keepalive != h.Options.Keepalive {
+				c.Violation("judge-go", "c05-newhelo", "NewHelo does not build a HELO (with options) that survives the wire", nil)
+			}
+		}
 	}
 }
 
